@@ -1,0 +1,181 @@
+//go:build verif
+
+package gortsplib
+
+// Verification hooks for property C17 (secure sessions).  Build tag "verif" only;
+// thin wrappers around unexported code, nothing here changes behaviour.
+
+import (
+	"crypto/tls"
+
+	"github.com/pion/rtcp"
+	"github.com/pion/rtp"
+
+	"github.com/bluenviron/gortsplib/v5/pkg/headers"
+	"github.com/bluenviron/gortsplib/v5/pkg/mikey"
+)
+
+// VerifSRTPContext exports wrappedSRTPContext.
+type VerifSRTPContext struct {
+	c *wrappedSRTPContext
+}
+
+// VerifNewSRTPContext builds a wrappedSRTPContext and calls initialize().
+func VerifNewSRTPContext(key []byte, mki []byte, ssrcs []uint32, startROCs []uint32) (*VerifSRTPContext, error) {
+	c := &wrappedSRTPContext{key: key, mki: mki, ssrcs: ssrcs, startROCs: startROCs}
+	err := c.initialize()
+	if err != nil {
+		return nil, err
+	}
+	return &VerifSRTPContext{c: c}, nil
+}
+
+// VerifMikeyToContext exports mikeyToContext.
+func VerifMikeyToContext(msg *mikey.Message) (*VerifSRTPContext, error) {
+	c, err := mikeyToContext(msg)
+	if err != nil {
+		return nil, err
+	}
+	return &VerifSRTPContext{c: c}, nil
+}
+
+// ToMikey exports contextToMikey.
+func (v *VerifSRTPContext) ToMikey() (*mikey.Message, error) { return contextToMikey(v.c) }
+
+// Key returns the master key and salt.
+func (v *VerifSRTPContext) Key() []byte { return v.c.key }
+
+// MKI returns the master key identifier.
+func (v *VerifSRTPContext) MKI() []byte { return v.c.mki }
+
+// SSRCs returns the SSRC list.
+func (v *VerifSRTPContext) SSRCs() []uint32 { return v.c.ssrcs }
+
+// StartROCs returns the initial roll-over counters.
+func (v *VerifSRTPContext) StartROCs() []uint32 { return v.c.startROCs }
+
+// ROC exports roc().
+func (v *VerifSRTPContext) ROC(ssrc uint32) uint32 { return v.c.roc(ssrc) }
+
+// SRTCPIndex returns the SRTCP index of the wrapped context.
+func (v *VerifSRTPContext) SRTCPIndex(ssrc uint32) (uint32, bool) { return v.c.w.Index(ssrc) }
+
+// EncryptRTP exports encryptRTP.
+func (v *VerifSRTPContext) EncryptRTP(dst []byte, plain []byte, h *rtp.Header) ([]byte, error) {
+	return v.c.encryptRTP(dst, plain, h)
+}
+
+// DecryptRTP exports decryptRTP.
+func (v *VerifSRTPContext) DecryptRTP(dst []byte, encrypted []byte, h *rtp.Header) ([]byte, error) {
+	return v.c.decryptRTP(dst, encrypted, h)
+}
+
+// EncryptRTCP exports encryptRTCP.
+func (v *VerifSRTPContext) EncryptRTCP(dst []byte, plain []byte, h *rtcp.Header) ([]byte, error) {
+	return v.c.encryptRTCP(dst, plain, h)
+}
+
+// DecryptRTCP exports decryptRTCP.
+func (v *VerifSRTPContext) DecryptRTCP(dst []byte, encrypted []byte, h *rtcp.Header) ([]byte, error) {
+	return v.c.decryptRTCP(dst, encrypted, h)
+}
+
+func verifServerConn(hasTLS bool, hasUDP bool, hasMulticast bool, tunnel bool) *ServerConn {
+	s := &Server{}
+	if hasTLS {
+		s.TLSConfig = &tls.Config{} //nolint:gosec
+	}
+	if hasUDP {
+		s.udpRTPListener = &serverUDPListener{}
+	}
+	if hasMulticast {
+		s.MulticastIPRange = "224.1.0.0/16"
+	}
+	sc := &ServerConn{s: s}
+	if tunnel {
+		sc.tunnel = TunnelHTTP
+	}
+	return sc
+}
+
+// VerifIsTransportSupported exports isTransportSupported on a synthetic connection.
+func VerifIsTransportSupported(hasTLS bool, hasUDP bool, hasMulticast bool, tunnel bool, tr *headers.Transport) bool {
+	return isTransportSupported(verifServerConn(hasTLS, hasUDP, hasMulticast, tunnel), tr)
+}
+
+// VerifPickFirstSupportedTransport exports pickFirstSupportedTransport (index of the choice, -1 if none).
+func VerifPickFirstSupportedTransport(
+	hasTLS bool, hasUDP bool, hasMulticast bool, tunnel bool, trs headers.Transports,
+) *headers.Transport {
+	return pickFirstSupportedTransport(verifServerConn(hasTLS, hasUDP, hasMulticast, tunnel), trs)
+}
+
+// VerifIsSecure exports isSecure.
+func VerifIsSecure(p headers.TransportProfile) bool { return isSecure(p) }
+
+// VerifSessionSRTP reports whether a setupped media of a server session owns SRTP contexts.
+func (ss *ServerSession) VerifSessionSRTP() (in int, out int, medias int) {
+	for _, sm := range ss.setuppedMedias {
+		medias++
+		if sm.srtpInCtx != nil {
+			in++
+		}
+		if sm.srtpOutCtx != nil {
+			out++
+		}
+	}
+	return
+}
+
+// VerifClientSRTP reports how many setupped medias of a client own SRTP contexts.
+func (c *Client) VerifClientSRTP() (in int, out int, medias int) {
+	for _, cm := range c.setuppedMedias {
+		medias++
+		if cm.srtpInCtx != nil {
+			in++
+		}
+		if cm.srtpOutCtx != nil {
+			out++
+		}
+	}
+	return
+}
+
+// VerifClientSRTPKeys returns, per setupped media (keyed by media control), the outgoing and incoming
+// master key+salt and MKI of a client.
+func (c *Client) VerifClientSRTPKeys() map[string][4][]byte {
+	ret := make(map[string][4][]byte)
+	for m, cm := range c.setuppedMedias {
+		var e [4][]byte
+		if cm.srtpOutCtx != nil {
+			e[0] = cm.srtpOutCtx.key
+			e[1] = cm.srtpOutCtx.mki
+		}
+		if cm.srtpInCtx != nil {
+			e[2] = cm.srtpInCtx.key
+			e[3] = cm.srtpInCtx.mki
+		}
+		ret[m.Control] = e
+	}
+	return ret
+}
+
+// VerifStreamSRTPKeys returns the outgoing master key+salt of every media of a stream (nil without TLS).
+func (st *ServerStream) VerifStreamSRTPKeys() [][]byte {
+	ret := make([][]byte, len(st.Desc.Medias))
+	for i, m := range st.Desc.Medias {
+		if sm := st.medias[m]; sm != nil && sm.srtpOutCtx != nil {
+			ret[i] = sm.srtpOutCtx.key
+		}
+	}
+	return ret
+}
+
+// VerifStreamROC returns the roll-over counter of the stream's outgoing context for a SSRC.
+func (st *ServerStream) VerifStreamROC(mediaIndex int, ssrc uint32) (uint32, bool) {
+	sm := st.medias[st.Desc.Medias[mediaIndex]]
+	if sm == nil || sm.srtpOutCtx == nil {
+		return 0, false
+	}
+	return sm.srtpOutCtx.roc(ssrc), true
+}
